@@ -97,7 +97,7 @@ Proof.
     set (midtoks := flat_map (toks s) mids) in *.
     set (Tb := toks s bs) in *. set (Te := toks s be) in *.
     set (NT := firstn sj Tb ++ tokens ++ skipn ej Te) in *.
-    match type of H with context [update_block LF ?S ?b] => set (S3' := S) in *; set (nb := b) in * end.
+    match type of H with context [py_nth (s_blocks ?S) _] => set (S3' := S) in * end. set (nb := s_next s) in *.
     pose proof (mid_split _ _ _ _ _ Lt Hbs Hbe) as E. fold pre post mids in E.
     assert (abs s = flat_map (toks s) pre ++ (Tb ++ midtoks ++ Te) ++ flat_map (toks s) post) as Eabs.
     { unfold abs. rewrite E at 1. rewrite !flat_map_app. cbn [flat_map]. rewrite flat_map_app. cbn [flat_map].
